@@ -45,6 +45,15 @@ for f in $FILES; do
   if [ $# -gt 0 ]; then hit=0; for pat in "$@"; do case "$name" in *"$pat"*) hit=1;; esac; done; [ $hit = 1 ] || continue; fi
   if ! git -C "$WT" apply "$f" 2>/dev/null; then echo "$name APPLY-FAILED" | tee -a "$OUT.tmp"; fail=1; continue; fi
   blog=$(cd "$H" && cargo build --release --offline 2>&1); bcode=$?
+  case " $props " in *" C09 "*)
+    # the end-to-end lane runs the real binary: build it from the scratch tree too
+    if [ $bcode -eq 0 ]; then
+      mkdir -p "$S/e2e"
+      blog=$(cd "$WT" && CARGO_TARGET_DIR="$S/e2e" cargo build --bin acb --no-default-features --features cliapp --offline 2>&1); bcode=$?
+      [ -e "$S/e2e/libsimseed.so" ] || cc -shared -fPIC -O1 -o "$S/e2e/libsimseed.so" /verif/harness/preload/simseed.c -ldl
+      export VERIF_E2E_DIR=$S/e2e
+    fi;;
+  esac
   if [ $bcode -ne 0 ]; then
     echo "$name BUILD-FAILED $(echo "$blog" | grep -m1 '^error' | cut -c1-160)" | tee -a "$OUT.tmp"; fail=1
   else
